@@ -382,7 +382,7 @@ func init() {
 		in.flattenGo(itf.T, "", &off, false, &gLeaves, &gbytes)
 		tc := in.tc
 		fail := func(cond bool, msg, where string) {
-			if !cond && in.feasible() {
+			if !cond && in.definitelyFeasible() {
 				in.ensureModel()
 				in.report("assert", msg, site+": "+where, in.path.model)
 			}
